@@ -13,6 +13,11 @@ kernel that is loaded and interpolated HERE (never from the library's caches).  
 pressure grids: same length and end points, one point moved, subsets, shifted by one point, reversed, the same array object changed in
 place, other isotherm on the same grid, other spline order, other kernel on the same grid, other limits through the entry point) are part
 of the quick tier: each answer of a sequence has to pass the same certificate, and a repeated call has to repeat its answer.
+User kernel files NAMED like a shipped resource (the shipped file name, the bare kernel name, other extension / case / suffix / prefix, a directory
+named like the kernel; own random content, ranges ending below and above the shipped kernel's; absolute, relative and unnormalised paths) go through
+BOTH entry points (`psd_dft` on an isotherm, `psd_dft_kernel_fit` on arrays): the certificate is computed from THAT file, the two entry points have to
+agree bit for bit, pressures outside THAT file's range are refused by both, inside it they are fitted (Props/C18/Memo.lean `resolveKernel_*`:
+an argument that is not a registered name is passed on literally; any weaker key shadows the user's file).
 """
 import json
 import math
@@ -102,6 +107,46 @@ def run(ck):
     KERNEL_FILES = {"shipped": (shipped, widths_shipped, float(kp[0]), float(kp[-1])), "user": (user_path, np.array(uw), float(up[0]), float(up[-1])),
                     "user2": (user_path2, np.array(uw2), float(up2[0]), float(up2[-1])), "user3": (user_path3, np.array(uw3), float(up3[0]), float(up3[-1])),
                     "twin": (twin_path, np.array(uw), float(up[0]), float(up[-1]))}
+
+    # NAMESAKES: user kernel files whose NAME coincides with (or resembles) the name of a shipped resource - what one gets by copying the shipped kernel to a working
+    # directory and editing it.  A kernel argument that is not a registered kernel NAME is a path and denotes THAT file, through every entry point: whatever resolves
+    # the argument by file name, stem, case-folded name or directory name answers with the shipped kernel (other pore widths, other pressure range) instead.
+    # Every file has its own random content: 4-7 pore widths (never the shipped number), a pressure range that ends well below the shipped kernel's (0.3-0.7: pressures
+    # between the file's top and the shipped top must be refused) or above it (pressures between the shipped top and the file's top must be fitted).
+    import shutil
+    ns_root = tempfile.mkdtemp(prefix="pgv-namesake-")
+    used_kernel_args = set()
+    NAMESAKES = []                                   # keys of KERNEL_FILES
+    NS_INFO = {}                                     # key -> (how the file name relates to the shipped name, shipped kernel name)
+
+    def synth_kernel_file(path, top):
+        nw = rng.randint(4, 7)
+        ws = [round(rng.uniform(0.4, 0.7), 2)]
+        while len(ws) < nw:
+            ws.append(round(ws[-1] + rng.uniform(0.25, 0.9), 2))
+        pr = np.geomspace(10 ** rng.uniform(-6.3, -5.0), top, rng.randint(11, 14))
+        a, s, c, g = rng.uniform(2.0, 3.2), rng.uniform(5.4, 6.1), rng.uniform(1.2, 2.1), rng.uniform(2.2, 3.1)
+        tb = {str(w): [a * (p * 10 ** (s - w)) / (1 + p * 10 ** (s - w)) + w * c / (1 + math.exp(-(math.log10(p) + s - w) * g)) for p in pr] for w in ws}
+        os.makedirs(os.path.dirname(path), exist_ok=True)
+        pd.DataFrame(tb, index=pr).to_csv(path)
+        return path, np.array(ws), float(pr[0]), float(pr[-1])
+
+    for ki, (k_name, k_res) in enumerate(sorted(KERNELS.items(), key=lambda kv: str(kv[0]))):
+        k_file = os.path.basename(str(k_res))
+        k_stem, k_ext = os.path.splitext(k_file)
+        shipped_top = float(pd.read_csv(str(k_res), index_col=0).index.values.astype(float)[-1])
+        forms = [("the shipped kernel's file name", k_file), ("the shipped kernel's name without extension", str(k_name)), ("the shipped kernel's name with another extension", k_stem + rng.choice([".txt", ".dat", ".kernel"])),
+                 ("the shipped kernel's file name in lower case", k_file.lower()), ("the shipped kernel's file name in upper case", k_file.upper()),
+                 ("a directory named like the shipped kernel", os.path.join(str(k_name), rng.choice(["kernel.csv", "my-kernel.csv", "k.csv"]))),
+                 ("the shipped kernel's file name with a suffix", k_file + rng.choice([".bak", ".edited", "~"])), ("the shipped kernel's file name with a prefix", rng.choice(["my-", "edited_", "2-"]) + k_file)]
+        # every name with a range that ends below the shipped kernel's; the first two names and one other also with a range that reaches above it
+        wide = {0, 1, rng.randrange(2, len(forms))} if shipped_top < 0.9999 else set()
+        for fi, (how, fname) in enumerate(forms):
+            for vi, top in enumerate([rng.uniform(0.3, 0.7)] + ([min(0.99995, shipped_top + (1 - shipped_top) * rng.uniform(0.3, 0.9))] if fi in wide else [])):
+                key = f"namesake{ki}.{fi}.{vi}"
+                KERNEL_FILES[key] = synth_kernel_file(os.path.join(ns_root, f"d{ki}-{fi}-{vi}", fname), top)
+                NAMESAKES.append(key)
+                NS_INFO[key] = (how, str(k_name), str(k_res), shipped_top)
 
     def bspline_ref(xs, ys, degree, m=100):
         """the open B-spline of `bspline` by de Boor's recursion (the arithmetic of Model/Kernel.lean `bsplineCurve`, in floats): no scipy"""
@@ -418,6 +463,8 @@ def run(ck):
         for rep in range(ck.n(2, 6)):
             for k in ("user", "twin", "user2", "user3"):
                 history(k, {"user": 12, "twin": 12, "user2": 11, "user3": 8}[k], [0, 0, 1, 2, 3], 8)
+        for rep in range(ck.n(1, 3)):
+            history(rng.choice(NAMESAKES), 11, [0, 0, 1, 2, 3], 6)
         for rep in range(ck.n(2, 4)):
             history("shipped", rng.choice([16, 24]), [0, 0, 0, 2, 3], ck.n(4, 8))
 
@@ -426,7 +473,7 @@ def run(ck):
             lo_c = max(v[2] for v in KERNEL_FILES.values()) * 1.01
             hi_c = min(v[3] for v in KERNEL_FILES.values()) * 0.98
             G = np.array(sorted({logu(rng, lo_c, hi_c) for _ in range(10)}))
-            names = ["user", "twin", "user2", "user3", "shipped", "user", "twin"]
+            names = ["user", "twin", "user2", "user3", "shipped", "user", "twin", NAMESAKES[0], rng.choice(NAMESAKES[1:])]
             rng.shuffle(names)
             for pos, k in enumerate(names):
                 path, widths0, _, _ = KERNEL_FILES[k]
@@ -452,9 +499,16 @@ def run(ck):
                 fail_case({**sig, "clause": "psd_dft raises a non-pyGAPS error", "error": type(e).__name__}, {**detail, "error": repr(e)[:300]})
                 return None
 
+        def kernel_arg(path, form=None):
+            """the same file as the user may name it: absolute path, path relative to the working directory, path with a redundant component"""
+            form = form or rng.choice(["absolute path", "absolute path", "relative path", "path with a redundant component"])
+            arg = {"absolute path": path, "relative path": os.path.relpath(path), "path with a redundant component": os.path.join(os.path.dirname(path), ".", os.path.basename(path))}[form]
+            used_kernel_args.add(arg)
+            return arg, form
+
         def entry_history(k, npts):
             path, widths0, plo, phi = KERNEL_FILES[k]
-            karg = "DFT-N2-77K-carbon-slit" if k == "shipped" else path
+            karg = "DFT-N2-77K-carbon-slit" if k == "shipped" else kernel_arg(path)[0] if k in NS_INFO else path
             nw = len(widths0)
             P = np.array(sorted({logu(rng, max(plo, 1e-7) * 1.01, phi * 0.98) for _ in range(npts)}))
             n = len(P)
@@ -479,7 +533,9 @@ def run(ck):
                 order = rng.choice([0, 0, 2] if k == "shipped" else [0, 0, 1, 2, 3])
                 tag = f"entry point, {branch} branch, limits " + ("none" if lo_i is None and hi_i is None else "lower only" if hi_i is None else "upper only" if lo_i is None else "both") + (", second isotherm" if iso is iso2 else "")
                 sig = {"kernel": kname(k), "bspline_order": order, "history": tag}
-                detail = {"kernel_file": os.path.basename(path), "limits": lim, "expected_points": [ea, eb], "position_in_history": pos, "n_points": len(grid), "weights": {str(widths0[j]): float(wts[j]) for j in range(nw) if wts[j] > 0},
+                if k in NS_INFO:
+                    sig["kernel_file_name"] = NS_INFO[k][0]
+                detail = {"kernel_file": os.path.basename(path), "kernel_argument": str(karg), "kernel_pressure_range": [float(plo), float(phi)], "limits": lim, "expected_points": [ea, eb], "position_in_history": pos, "n_points": len(grid), "weights": {str(widths0[j]): float(wts[j]) for j in range(nw) if wts[j] > 0},
                           "pressure": grid.tolist(), "branch": branch}
                 ck.count(("entry-history", k, tag, order, pos), bucket=f"history:{kname(k)}:{tag}")
                 lim_arg = lim if (lo_i, hi_i) != (None, None) or rng.random() < 0.5 else None
@@ -503,8 +559,143 @@ def run(ck):
             entry_history("user", 14)
             entry_history("twin", 14)
             entry_history("user2", 12)
+        for rep in range(ck.n(1, 3)):
+            entry_history(NAMESAKES[0], 12)
+            entry_history(rng.choice(NAMESAKES[1:]), 12)
         for rep in range(ck.n(1, 2)):
             entry_history("shipped", rng.choice([24, 32]))
+
+        # ------------------------------------------------------------------ every entry point with every user kernel file (namesakes of shipped resources first)
+        # A kernel argument that is not a registered kernel name denotes the file at that path, for `psd_dft` (isotherm) and for `psd_dft_kernel_fit` (arrays) alike:
+        #   (1) an exact combination of THAT file's isotherms inside THAT file's range is fitted (never refused: no refusal in 45 000 combinations with weights <= 1 on the
+        #       unchanged tree) and passes the certificate computed from THAT file (its widths, its kernel-weighted sum);
+        #   (2) the two entry points give the same arrays for the same argument (the isotherm is stored in the kernel's units: measured bit-identical);
+        #   (3) a pressure outside THAT file's range (above its top - mostly still inside the shipped kernel's range -, or negative) is refused by both;
+        #   (4) points outside THAT file's range that the user excludes with p_limits are neither refused nor of influence.
+        RES_KEYS = ("pore_widths", "pore_distribution", "pore_volume_cumulative", "kernel_loading")
+
+        def arrays(r):
+            return tuple(np.asarray(r[kk], dtype=float) for kk in RES_KEYS)
+
+        def user_file_case(k, form=None):
+            path, widths0, plo, phi = KERNEL_FILES[k]
+            nw = len(widths0)
+            karg, form = kernel_arg(path, form)
+            order = rng.choice([0, 0, 1, 2, 3])
+            sig = {"kernel": "user", "bspline_order": order, "entry_point": "psd_dft", "kernel_argument": form}
+            shipped_top = None
+            if k in NS_INFO:
+                sig["kernel_file_name"] = NS_INFO[k][0]
+                shipped_top = NS_INFO[k][3]
+            lo = max(plo, 1e-7) * 1.01
+            pts = {logu(rng, lo, phi * 0.99) for _ in range(rng.choice([10, 12, 14]))}
+            if shipped_top is not None and phi > shipped_top * 1.0005:
+                pts.add(rng.uniform(shipped_top * 1.0004, phi * 0.9999))          # inside this file's range, outside the shipped kernel's
+            P = np.array(sorted(pts))
+            wts = sparse_weights(nw)
+            L = combo(path, P, wts)
+            detail = {"kernel_file": os.path.basename(path), "kernel_argument": str(karg), "kernel_widths": [float(v) for v in widths0], "kernel_pressure_range": [float(plo), float(phi)],
+                      "weights": {str(widths0[j]): float(wts[j]) for j in range(nw) if wts[j] > 0}, "pressure": P.tolist(), "loading": [float(v) for v in L]}
+            ck.count(("user-file", k, form, order, len(P)), bucket=f"entry points:user kernel file named {NS_INFO[k][0] if k in NS_INFO else 'unlike any shipped kernel'}:{form}",
+                     sample={**sig, **detail} if k == NAMESAKES[0] else None)
+            try:
+                r = pgc.psd_dft(iso_of(P, L), kernel=karg, branch="ads", bspline_order=order)
+            except CalculationError as e:
+                fail_case({**sig, "clause": "exact combination inside the kernel file's pressure range refused"}, {**detail, "error": str(e)[:200]})
+                r = None
+            except Exception as e:  # noqa
+                fail_case({**sig, "clause": "psd_dft raises a non-pyGAPS error", "error": type(e).__name__}, {**detail, "error": repr(e)[:300]})
+                r = None
+            r0 = None
+            if r is not None:
+                base = None
+                if order:
+                    r0 = entry(iso_of(P, L), karg, "ads", None, 0, sig, detail)
+                    base = None if r0 is None else arrays(r0)
+                    if base is not None:
+                        verify(base, path, P, L, 0, wts, {**sig, "bspline_order": 0, "as_reference_of_order": order}, detail, widths0)
+                else:
+                    r0 = r
+                verify(arrays(r), path, P, L, order, wts, sig, detail, widths0, base=base)
+                rb = fit(karg, P.copy(), L.copy(), order, {**sig, "entry_point": "psd_dft_kernel_fit"}, detail)
+                if rb is None:
+                    fail_case({**sig, "clause": "the two entry points disagree on the same kernel argument", "how": "psd_dft_kernel_fit refuses what psd_dft fits"}, detail)
+                elif not all(len(x) == len(y) and np.array_equal(x, y) for x, y in zip(arrays(r), (np.asarray(v, dtype=float) for v in rb))):
+                    fail_case({**sig, "clause": "the two entry points disagree on the same kernel argument"},
+                              {**detail, "widths_psd_dft": arrays(r)[0][:8].tolist(), "widths_psd_dft_kernel_fit": np.asarray(rb[0], dtype=float)[:8].tolist()})
+            # (3) outside THIS file's range
+            hi_cap = 1.0 if phi < 0.999 else phi * 1.001
+            above = phi + (hi_cap - phi) * 10 ** rng.uniform(-3, 0) * 0.999
+            for bad, side in (([above], "above"), ([-10 ** rng.uniform(-9, -3)], "below")) if rng.random() < 0.5 else (([above], "above"),):
+                PP = np.array(sorted(P.tolist() + bad))
+                LL = np.linspace(1.0, 2.0, len(PP)) if rng.random() < 0.5 else np.interp(PP, P, L)
+                for ep in ("psd_dft", "psd_dft_kernel_fit"):
+                    ck.count(("user-file-outside", k, form, side, ep), bucket=f"outside kernel range:user kernel file through {ep}:{side}")
+                    d2 = {**detail, "pressure": PP.tolist(), "loading": [float(v) for v in LL], "outside": bad, "inside_the_shipped_kernel_range": bool(shipped_top is not None and 0 <= bad[0] <= shipped_top)}
+                    try:
+                        if ep == "psd_dft":
+                            pgc.psd_dft(iso_of(PP, LL), kernel=karg, branch="ads", bspline_order=0)
+                        else:
+                            pk.psd_dft_kernel_fit(PP, LL, karg, bspline_order=0)
+                        fail_case({"kernel": "user", "entry_point": ep, "kernel_argument": form, **({"kernel_file_name": NS_INFO[k][0]} if k in NS_INFO else {}), "clause": "pressure outside the kernel range accepted", "side": side}, d2)
+                    except CalculationError:
+                        pass
+                    except Exception as e:  # noqa
+                        fail_case({"kernel": "user", "entry_point": ep, "clause": "pressure outside the kernel range gives a non-pyGAPS error", "error": type(e).__name__}, {**d2, "error": repr(e)[:300]})
+            # (4) excluded by the limits
+            if r0 is not None:
+                extra = sorted(phi + (hi_cap - phi) * rng.uniform(0.05, 0.95) for _ in range(2))
+                PP = np.concatenate([P, extra])
+                LL = np.concatenate([L, [L[-1] * 1.1 + 0.1, L[-1] * 1.2 + 0.2]])
+                lim = (None, math.sqrt(float(P[-1]) * min(float(extra[0]), phi)))
+                ck.count(("user-file-limits", k, form), bucket="entry point: limits exclude points outside the kernel range (user kernel file)")
+                d2 = {**detail, "pressure": PP.tolist(), "loading": [float(v) for v in LL], "limits": lim, "extra_points": extra}
+                try:
+                    rx = pgc.psd_dft(iso_of(PP, LL), kernel=karg, branch="ads", p_limits=lim, bspline_order=0)
+                    if not all(np.array_equal(x, y) for x, y in zip(arrays(r0), arrays(rx))):
+                        fail_case({**sig, "bspline_order": 0, "clause": "points outside the requested pressure limits influence the result"}, d2)
+                except Exception as e:  # noqa
+                    fail_case({**sig, "bspline_order": 0, "clause": "points outside the requested pressure limits influence the result", "how": "refused: " + type(e).__name__}, {**d2, "error": str(e)[:200]})
+
+        for k in NAMESAKES:
+            user_file_case(k, "absolute path")
+        for rep in range(ck.n(4, 16)):
+            user_file_case(rng.choice(NAMESAKES))
+        for k in ("user", "twin", "user2", "user3"):
+            user_file_case(k)
+
+        # the shipped kernel and its namesakes in one process, in every order: by name, by the path of the shipped file, the user's file, by name again
+        for k_name, k_res in sorted(KERNELS.items(), key=lambda kv: str(kv[0])):
+            mine = [k for k in NAMESAKES if NS_INFO[k][1] == str(k_name)]
+            k_user = rng.choice(mine[:2]) if rng.random() < 0.6 else rng.choice(mine)
+            u_path, u_widths, u_lo, u_hi = KERNEL_FILES[k_user]
+            raw_k = pd.read_csv(str(k_res), index_col=0)
+            s_widths, s_p = np.asarray(raw_k.columns, dtype=float), raw_k.index.values.astype(float)
+            G = np.array(sorted({logu(rng, max(u_lo, float(s_p[0]), 1e-7) * 1.01, min(u_hi, float(s_p[-1])) * 0.98) for _ in range(12)}))
+            steps = [("registered name", str(k_name), str(k_res), s_widths), ("user file named " + NS_INFO[k_user][0], kernel_arg(u_path)[0], u_path, u_widths),
+                     ("path of the shipped kernel file", str(k_res), str(k_res), s_widths), ("user file named " + NS_INFO[k_user][0], kernel_arg(u_path)[0], u_path, u_widths)]
+            rng.shuffle(steps)
+            steps = steps + [steps[0]]
+            answers = {}
+            for pos, (tag, karg, own, widths0) in enumerate(steps):
+                wts_key = (own,)
+                if wts_key not in answers:
+                    answers[wts_key] = [sparse_weights(len(widths0)), None]
+                wts = answers[wts_key][0]
+                Lk = combo(own, G, wts)
+                order = 0
+                sig = {"kernel": "shipped" if own == str(k_res) else "user", "bspline_order": order, "history": "shipped kernel and its namesake in one process: " + tag}
+                detail = {"kernel_argument": str(karg), "position_in_history": pos, "arguments_before": [str(st[1]) for st in steps[:pos]], "pressure": G.tolist(),
+                          "weights": {str(widths0[j]): float(wts[j]) for j in range(len(widths0)) if wts[j] > 0}}
+                ck.count(("namesake-history", tag, pos), bucket="history:shipped kernel and its namesake in one process")
+                r = entry(iso_of(G, Lk), karg, "ads", None, order, sig, detail)
+                if r is None:
+                    continue
+                got = verify(arrays(r), own, G, Lk, order, wts, sig, detail, widths0)
+                if got is not None:
+                    if answers[wts_key][1] is not None and not all(np.array_equal(x, y) for x, y in zip(answers[wts_key][1], got)):
+                        fail_case({**sig, "clause": "the same fit gives another answer after other fits in the same process"}, detail)
+                    answers[wts_key][1] = got
 
         # ------------------------------------------------------------------ entry point: limits, outside-range refusal
         for i in range(max(6, N // 2)):
@@ -599,6 +790,9 @@ def run(ck):
         pk._LOADED.pop(os.path.basename(user_path), None)
         pk._LOADED.pop(user_path3, None)
         pk._LOADED.pop(twin_path, None)
+        for arg in list(used_kernel_args) + [KERNEL_FILES[k][0] for k in NAMESAKES]:
+            pk._LOADED.pop(arg, None)
+        shutil.rmtree(ns_root, ignore_errors=True)
         for f in os.listdir(tmpdir4):
             os.remove(os.path.join(tmpdir4, f))
         os.rmdir(tmpdir4)
@@ -652,7 +846,8 @@ def run(ck):
                       "(every smoothed fit against the unsmoothed fit of the same data and de Boor's recursion), the sparse combinations again at other magnitudes (weights x 1e-7..1e-4, x 3..2000, "
                       "and weights balanced against the size of the kernel columns: every width contributes 0.5-3000 mmol/g), arbitrary increasing data, pressure limits anywhere (both, one, none; adsorption and desorption branch) with perturbed data outside them, "
                       "pressures outside the kernel range; histories of fits in one process on related grids (same length and end points, one point moved, subsets, shifted, reversed, arrays changed in place, other isotherm / order / kernel on "
-                      "the same grid, other limits or isotherm through the entry point), every answer certified with an independently loaded and interpolated kernel, repeated calls compared")
+                      "the same grid, other limits or isotherm through the entry point), user kernel files named like the shipped kernel (file name, bare name, other extension / case / prefix / suffix / directory; ranges below and above the shipped one; "
+                      "absolute / relative / unnormalised path) through psd_dft and psd_dft_kernel_fit with agreement of the two, refusal outside and acceptance inside the file's own range, every answer certified with an independently loaded and interpolated kernel, repeated calls compared")
     ck.assumptions += ["scipy SLSQP (ftol 1e-4, absolute) is numerical: fit error of exact combinations checked to max(0.15, 2e-2 |loading|_2) in L2 at every magnitude of the weights "
                        "(the absolute floor is the property's 'optimiser tolerance': isotherms with a sum of squares near ftol may be answered by the start vector 0)",
                        "scipy interp1d(kind='cubic') of the kernel file is residue; scipy splev is compared with the de Boor model on every smoothed fit"]
